@@ -323,6 +323,11 @@ def run(P, C, tier):
                 eq = False
                 for s_, vals, term in g:
                     atom, truth = mir.cond_atoms(term, vals)
+                    if atom[0] == "phi" and truth is True:
+                        # the verdict of a helper analysed inlined (`match o { Some(r) => r.eq(x), None => false }`): true only through its non-false arm
+                        alts_ = [a_ for a_ in atom[1] if not (mir.strip_refs(a_)[0] == "const" and mir.strip_refs(a_)[1] is False)]
+                        if len(alts_) == 1:
+                            atom = mir.strip_refs(alts_[0])
                     if atom[0] == "call" and atom[1].endswith("::eq") and truth is True and len(atom[2]) == 2:
                         x, y = atom[2]
 
@@ -334,7 +339,8 @@ def run(P, C, tier):
                                 # pattern bindings may be chained (`matches!(&x, Some(rid) if ..)` binds a reference to the binding)
                                 return any(DBROOM(d) or from_row(d, depth + 1) for d in rb.var_defs(z))
                             return False
-                        if (from_row(x) and mir.strip(y)[0] == "param" and ROOMP(y)) or (from_row(y) and mir.strip(x)[0] == "param" and ROOMP(x)):
+                        ox, oy = rb.origin(mir.strip(x)), rb.origin(mir.strip(y))   # the parameter binding of a helper analysed inlined
+                        if (from_row(x) and oy[0] == "param" and ROOMP(oy)) or (from_row(y) and ox[0] == "param" and ROOMP(ox)):
                             eq = True
                 some = any((mir.discr_variants(term, vals) or (None, []))[1] == ["Some"] and DBROOM(term) for s_, vals, term in g)
                 ok = ok and eq and some
